@@ -70,7 +70,7 @@ def cases(ctx):
         if found >= ctx.n(2, 8): break
         k = PrivateKey(secret_exponent=d); pb = k.get_public_key()
         prog, odd = pb.to_taproot_hex(None)
-        if prog.startswith('00'):
+        if _output_x(pb.to_bytes()[:32]).startswith('00'):
             found += 1; ctx.count('output-x-leading-zero')
             digest = G.rbytes(rng, 32)
             def spec(ans, digest=digest, prog=prog):
@@ -101,6 +101,15 @@ def cases(ctx):
             return (f's:tr_verify_tx {line} {pk} {hx(sig[:64])}', 'ok 1')
         ctx.count('full-flow')
         yield Case(f'tr_sign_tx {hx(priv.to_bytes())} {TT.line(tree)} {line}', 's', nontrivial=True, tag='full', spec=spec)
+
+
+def _output_x(px):
+    """x of lift_x(px) + H_TapTweak(px)*G by libsecp256k1 (independent of the library under test)"""
+    import coincurve, hashlib
+    th = hashlib.sha256(b'TapTweak').digest()
+    t = hashlib.sha256(th + th + px).digest()
+    q = coincurve.PublicKey(b'\x02' + px).add(t)
+    return q.format(compressed=True)[1:].hex()
 
 
 KEYS = {}
